@@ -1,7 +1,9 @@
 package exptypes
 
 import (
+	"bytes"
 	"encoding/json"
+	"slices"
 
 	"github.com/cedar-policy/cedar-go/types"
 	"github.com/cedar-policy/cedar-go/x/exp/schema/resolved"
@@ -206,5 +208,8 @@ func coerceSet(v types.Value, typ resolved.SetType) types.Value {
 	if !changed {
 		return v
 	}
+	// set.All() yields the members in Go map order and NewSet places members whose hashes collide by insertion
+	// order: hand them over in a fixed order so that the same input always decodes to the same Set.
+	slices.SortFunc(elems, func(a, b types.Value) int { return bytes.Compare(a.MarshalCedar(), b.MarshalCedar()) })
 	return types.NewSet(elems...)
 }
